@@ -1,5 +1,7 @@
 from ..framework import Spec
 from ..ties_out import formats_tie, formats_scenario_tie
-from ..scenarios import gen_small_space_scenario
+from ..scenarios import gen_small_space_scenario, gen_wide_space_scenario
 
-SPEC = Spec(pid='C16', coq_needs=['Base', 'Program', 'Formats', 'Properties/C16'], ties=[formats_tie(), formats_scenario_tie('small_spaces', gen_small_space_scenario, 80, 1500)])
+SPEC = Spec(pid='C16', coq_needs=['Base', 'Program', 'Formats', 'Properties/C16'], ties=[formats_tie(), formats_scenario_tie('small_spaces', gen_small_space_scenario, 80, 1500),
+                                                                            # lines across multiples of $10000 in 20 / 24 bit address spaces
+                                                                            formats_scenario_tie('wide_spaces', gen_wide_space_scenario, 40, 600)])
